@@ -57,11 +57,170 @@ fn convert(args: &[String]) {
     );
 }
 
+use simplicity::node::{ConstructNode, CoreConstructible, DisconnectConstructible, Inner};
+use simplicity::types::Context;
+use simplicity::{BitMachine, RedeemNode, Word};
+use std::sync::Arc;
+
+type CN<'b> = Arc<ConstructNode<'b>>;
+
+fn tree(n: &RedeemNode) -> String {
+    let w = |t: &simplicity::types::Final| t.bit_width();
+    match n.inner() {
+        Inner::Iden => "[\"iden\"]".into(),
+        Inner::Unit => "[\"unit\"]".into(),
+        Inner::Witness(_) => "[\"witness\"]".into(),
+        Inner::Fail(_) => "[\"fail\"]".into(),
+        Inner::Word(_) => "[\"word\"]".into(),
+        Inner::Jet(_) => "[\"jet\"]".into(),
+        Inner::InjL(c) => format!("[\"injl\",{}]", tree(c)),
+        Inner::InjR(c) => format!("[\"injr\",{}]", tree(c)),
+        Inner::Take(c) => format!("[\"take\",{}]", tree(c)),
+        Inner::Drop(c) => format!("[\"drop\",{}]", tree(c)),
+        Inner::AssertL(c, _) => format!("[\"assertl\",{}]", tree(c)),
+        Inner::AssertR(_, c) => format!("[\"assertr\",{}]", tree(c)),
+        Inner::Case(l, r) => format!("[\"case\",{},{}]", tree(l), tree(r)),
+        Inner::Pair(l, r) => format!("[\"pair\",{},{}]", tree(l), tree(r)),
+        Inner::Comp(l, r) => format!("[\"comp\",{},{},{}]", tree(l), tree(r), w(&l.arrow().target)),
+        Inner::Disconnect(l, r) => format!(
+            "[\"disconnect\",{},{},{},{}]",
+            tree(l),
+            tree(r),
+            w(&l.arrow().source),
+            w(&l.arrow().target)
+        ),
+    }
+}
+
+fn has_case(n: &RedeemNode) -> bool {
+    match n.inner() {
+        Inner::Case(..) | Inner::AssertL(..) | Inner::AssertR(..) => true,
+        Inner::InjL(c) | Inner::InjR(c) | Inner::Take(c) | Inner::Drop(c) => has_case(c),
+        Inner::Pair(l, r) | Inner::Comp(l, r) | Inner::Disconnect(l, r) => has_case(l) || has_case(r),
+        _ => false,
+    }
+}
+
+/// Execute concrete programs on the real Bit Machine (verif-hooks high-water marks)
+/// and print what the recurrence model of /verif/vlib/mircheck.py is validated against.
+fn peaks() {
+    let mut out: Vec<String> = vec![];
+    let mut run = |name: &str, build: &dyn for<'b> Fn(&Context<'b>) -> CN<'b>| {
+        let redeem = Context::with_context(|ctx| build(&ctx).finalize_unpruned().expect("finalize"));
+        let mut mac = BitMachine::for_program(&redeem).expect("limits");
+        let res = mac.exec(&redeem, &simplicity::jet::CoreEnv::new());
+        let b = redeem.bounds();
+        let (sw, tw) = (redeem.arrow().source.bit_width(), redeem.arrow().target.bit_width());
+        let (cap_bits, cap_frames) = mac.verif_capacity();
+        assert!(mac.verif_max_cells() <= cap_bits && mac.verif_max_frames() <= cap_frames);
+        out.push(format!(
+            "{{\"name\":\"{}\",\"ok\":{},\"tree\":{},\"max_cells\":{},\"max_frames\":{},\"io_cells\":{},\"io_frames\":{},\"extra_cells\":{},\"extra_frames\":{},\"tight\":{}}}",
+            name,
+            res.is_ok(),
+            tree(&redeem),
+            mac.verif_max_cells(),
+            mac.verif_max_frames(),
+            sw + tw,
+            (sw > 0) as usize + (tw > 0) as usize,
+            b.extra_cells,
+            b.extra_frames,
+            !has_case(&redeem)
+        ));
+    };
+    run("unit", &|ctx| CN::unit(ctx));
+    run("comp(word8,unit)", &|ctx| CN::comp(&CN::const_word(ctx, Word::u8(0xa5)), &CN::unit(ctx)).unwrap());
+    run("word16", &|ctx| CN::const_word(ctx, Word::u16(0xbeef)));
+    run("comp(pair(w8,w8),take(iden))", &|ctx| {
+        let p = CN::pair(&CN::const_word(ctx, Word::u8(1)), &CN::const_word(ctx, Word::u8(2))).unwrap();
+        CN::comp(&p, &CN::take(&CN::iden(ctx))).unwrap()
+    });
+    run("comp(comp(w8,pair(iden,iden)),drop(iden))", &|ctx| {
+        let a = CN::comp(&CN::const_word(ctx, Word::u8(1)), &CN::pair(&CN::iden(ctx), &CN::iden(ctx)).unwrap()).unwrap();
+        CN::comp(&a, &CN::drop_(&CN::iden(ctx))).unwrap()
+    });
+    run("comp(w32,comp(pair(iden,iden),comp(take(iden),unit)))", &|ctx| {
+        let inner = CN::comp(&CN::take(&CN::iden(ctx)), &CN::unit(ctx)).unwrap();
+        let mid = CN::comp(&CN::pair(&CN::iden(ctx), &CN::iden(ctx)).unwrap(), &inner).unwrap();
+        CN::comp(&CN::const_word(ctx, Word::u32(7)), &mid).unwrap()
+    });
+    for bit in 0..2u8 {
+        run(if bit == 0 { "case-left(heavy)" } else { "case-right(light)" }, &|ctx| {
+            // pair(bit, unit) : 1 -> 2 x 1 ; case(l, r) : (1+1) x 1 -> 1
+            let sel = CN::pair(&CN::const_word(ctx, Word::u1(bit)), &CN::unit(ctx)).unwrap();
+            let heavy = CN::comp(&CN::const_word(ctx, Word::u64(9)), &CN::unit(ctx)).unwrap();
+            let l = CN::comp(&CN::unit(ctx), &heavy).unwrap();
+            let r = CN::unit(ctx);
+            CN::comp(&sel, &CN::case(&l, &r).unwrap()).unwrap()
+        });
+    }
+    run("injr(comp(w8,iden))", &|ctx| CN::injr(&CN::comp(&CN::const_word(ctx, Word::u8(3)), &CN::iden(ctx)).unwrap()));
+    run("disconnect(pair(unit,unit),unit)", &|ctx| {
+        let left = CN::pair(&CN::unit(ctx), &CN::unit(ctx)).unwrap();
+        CN::disconnect(&left, &Some(CN::unit(ctx))).unwrap()
+    });
+    run("disconnect(pair(take(iden),unit),unit)", &|ctx| {
+        let left = CN::pair(&CN::take(&CN::iden(ctx)), &CN::unit(ctx)).unwrap();
+        CN::disconnect(&left, &Some(CN::unit(ctx))).unwrap()
+    });
+    run("comp(w8,disconnect(pair(take(iden),drop(iden)),comp(w16,unit)))", &|ctx| {
+        // left: 2^256 x 2^8 -> 2^256 x 2^8 ; right: 2^8 -> 1 with an inner frame
+        let left = CN::pair(&CN::take(&CN::iden(ctx)), &CN::drop_(&CN::iden(ctx))).unwrap();
+        let right = CN::comp(&CN::unit(ctx), &CN::comp(&CN::const_word(ctx, Word::u16(5)), &CN::unit(ctx)).unwrap()).unwrap();
+        let d = CN::disconnect(&left, &Some(right)).unwrap();
+        CN::comp(&CN::const_word(ctx, Word::u8(1)), &d).unwrap()
+    });
+    println!("{{\"programs\":[{}]}}", out.join(","));
+}
+
+/// A 65..70-byte program whose middle type has a saturated (>= 2^64) bit width
+/// and whose children need at least one extra cell.
+fn bounds_overflow(kind: &str) {
+    let kind = kind.to_string();
+    let redeem = Context::with_context(|ctx| {
+        let mut x = CN::injl(&CN::unit(&ctx));
+        for _ in 0..64 {
+            x = CN::pair(&x, &x).unwrap();
+        }
+        let c = CN::comp(&CN::injl(&CN::unit(&ctx)), &CN::unit(&ctx)).unwrap();
+        let prog = if kind == "comp" {
+            let l = CN::pair(&x, &c).unwrap();
+            CN::comp(&l, &CN::unit(&ctx)).unwrap()
+        } else {
+            // left: 2^256 x 1 -> (huge x 1) x 1 ; right: 1 -> 1
+            let big = CN::comp(&CN::unit(&ctx), &CN::pair(&x, &c).unwrap()).unwrap();
+            let left = CN::pair(&big, &CN::unit(&ctx)).unwrap();
+            let d = CN::disconnect(&left, &Some(CN::unit(&ctx))).unwrap();
+            CN::comp(&d, &CN::unit(&ctx)).unwrap()
+        };
+        prog.finalize_unpruned().expect("finalize")
+    });
+    let b = redeem.bounds();
+    let mac = BitMachine::for_program(&redeem);
+    let ok = mac.is_ok();
+    let exec = match mac {
+        Ok(mut m) => match std::panic::catch_unwind(std::panic::AssertUnwindSafe(|| m.exec(&redeem, &simplicity::jet::CoreEnv::new()).is_ok())) {
+            Ok(r) => format!("\"returned {}\"", r),
+            Err(_) => "\"panicked\"".to_string(),
+        },
+        Err(e) => format!("\"refused: {}\"", e),
+    };
+    // the run needs the (saturated) middle width plus one cell
+    println!(
+        "{{\"extra_cells\": {}, \"needed_cells\": {}, \"for_program_ok\": {}, \"exec\": {}}}",
+        b.extra_cells,
+        (usize::MAX as u128) + 1,
+        ok,
+        exec
+    );
+}
+
 fn main() {
     let args: Vec<String> = std::env::args().skip(1).collect();
     match args[0].as_str() {
         "budget" => budget(&args[1..]),
         "convert" => convert(&args[1..]),
+        "peaks" => peaks(),
+        "bounds_overflow" => bounds_overflow(&args[1]),
         _ => {
             eprintln!("usage: vreplay budget <cost> <item sizes..> | convert c1 c2 w1 w2 wu");
             std::process::exit(2)
